@@ -912,7 +912,9 @@ func containsWildcard(re *syntax.Regexp) bool {
 //   - Patterns with internal line anchors
 //   - Patterns where reverse search semantics differ
 func isSafeForMultilineReverseSuffix(re *syntax.Regexp) bool {
-	if !isMultilineLineAnchored(re) {
+	// The search works line by line: a pattern that can consume '\n' may match
+	// across lines and is not safe.
+	if !isMultilineLineAnchored(re) || matchesNewline(re) {
 		return false
 	}
 
@@ -949,6 +951,32 @@ func isSafeForMultilineReverseSuffix(re *syntax.Regexp) bool {
 	default:
 		return false
 	}
+}
+
+// matchesNewline reports whether some element of re can consume '\n'.
+func matchesNewline(re *syntax.Regexp) bool {
+	switch re.Op {
+	case syntax.OpAnyChar:
+		return true
+	case syntax.OpLiteral:
+		for _, r := range re.Rune {
+			if r == '\n' {
+				return true
+			}
+		}
+	case syntax.OpCharClass:
+		for i := 0; i+1 < len(re.Rune); i += 2 {
+			if re.Rune[i] <= '\n' && '\n' <= re.Rune[i+1] {
+				return true
+			}
+		}
+	}
+	for _, sub := range re.Sub {
+		if matchesNewline(sub) {
+			return true
+		}
+	}
+	return false
 }
 
 // isWildcardOp checks if the op is a wildcard pattern (.*, .+, or [charclass]+)
